@@ -132,10 +132,19 @@ fn oracle_stream(spec: &str, sched: &str, ops: &str, file: &[u8], ann: &str) -> 
     if run.reply.contains("panic") {
         return Err("C08: the stream parser panicked".into());
     }
+    let legal = sched.split(',').all(|t| t == "-" || t == "o" || t == "i" || t.starts_with('s'));
+    // C10: an identification defect (magic, version, class, byte order vs the spec) is reported through the
+    // stream parser as exactly that error, with the bytes found — whatever follows the sixteen bytes
+    if legal && file.len() >= 16 && ["any", "little", "big", "native"].contains(&spec) {
+        let want = crate::oracle::ident_expect(spec, &file[..16]);
+        let named = ["err BadMagic", "err UnsupportedVersion", "err UnsupportedElfClass", "err UnsupportedElfEndianness"];
+        if named.iter().any(|k| want.starts_with(k)) && parts[0] != format!("open={}", want) {
+            return Err(format!("C10: through the stream parser the identification defect is reported as `{}`, expected `open={}`", parts[0], want));
+        }
+    }
     if spec != "any" {
         return Ok(());
     }
-    let legal = sched.split(',').all(|t| t == "-" || t == "o" || t == "i" || t.starts_with('s'));
     let slice = ElfBytes::<AnyEndian>::minimal_parse(file);
     // C08: lazy reads — everything read is a range the headers designate
     if legal {
@@ -219,24 +228,31 @@ fn oracle_stream(spec: &str, sched: &str, ops: &str, file: &[u8], ann: &str) -> 
         if want == got { continue; }
         let exact = matches!(kind, 'Y' | 'D' | 'V' | 'P');
         // the extended-index escape for the section-name string table is C05's clause
-        let tag = if kind == 'T' && f.ehdr.e_shstrndx == abi::SHN_XINDEX { "C05" } else { "C07" };
+        let base_tag = if kind == 'T' && f.ehdr.e_shstrndx == abi::SHN_XINDEX { "C05" } else if kind == 'Y' || kind == 'D' { "C09" } else { "C07" };
         let (pw, pg) = (pieces(&want), pieces(&got));
         if pw.len() != pg.len() {
-            return Err(format!("{}: `{}`: stream `{}` vs slice `{}`", tag, q, &got[..got.len().min(200)], &want[..want.len().min(200)]));
+            return Err(format!("{}: `{}`: stream `{}` vs slice `{}`", base_tag, q, &got[..got.len().min(200)], &want[..want.len().min(200)]));
         }
+        // every differing piece of this query is reported, each under the property it belongs to
+        let mut fails: Vec<String> = vec![];
         for (w, g) in pw.iter().zip(&pg) {
             if w == g { continue; }
+            // relocation iterators and symbol tables are C09's subject (entries = whole entries of the section's
+            // bytes), the other typed views C20's; everything else is C07 proper (C07's check reports all of them)
+            let tag = if w.starts_with("rels=") || w.starts_with("relas=") { "C09" }
+                      else if w.starts_with("notes=") || w.starts_with("strtab=") { "C20" } else { base_tag };
             let (sw, sg) = (status(w), status(g));
             let data_piece = w.starts_with("data=");
             if sw == "ok" && sg == "ok" {
-                return Err(format!("{}: `{}`: both succeed with different content: stream `{}` slice `{}`", tag, q, &g[..g.len().min(160)], &w[..w.len().min(160)]));
+                fails.push(format!("{}: `{}`: both succeed with different content: stream `{}` slice `{}`", tag, q, &g[..g.len().min(160)], &w[..w.len().min(160)]));
+            } else if sw == "ok" && sg != "ok" {
+                fails.push(format!("{}: `{}`: slice succeeds, stream fails: `{}`", tag, q, &g[..g.len().min(160)]));
+            } else if (exact || data_piece) && sw != sg {
+                fails.push(format!("{}: `{}`: success/failure must coincide: stream `{}` slice `{}`", tag, q, &g[..g.len().min(160)], &w[..w.len().min(160)]));
             }
-            if sw == "ok" && sg != "ok" {
-                return Err(format!("{}: `{}`: slice succeeds, stream fails: `{}`", tag, q, &g[..g.len().min(160)]));
-            }
-            if (exact || data_piece) && sw != sg {
-                return Err(format!("{}: `{}`: success/failure must coincide: stream `{}` slice `{}`", tag, q, &g[..g.len().min(160)], &w[..w.len().min(160)]));
-            }
+        }
+        if !fails.is_empty() {
+            return Err(fails.join(" || FAIL "));
         }
     }
     Ok(())
